@@ -91,11 +91,24 @@ fn decode_loop() {
             continue;
         }
         let v: Value = serde_json::from_str(&line).unwrap();
-        let bytes: Vec<u8> = v.as_array().unwrap().iter().map(|x| x.as_u64().unwrap() as u8).collect();
-        let (cow, _) = encoding_rs::UTF_8.decode_with_bom_removal(&bytes);
-        let cps: Vec<u32> = cow.chars().map(|c| c as u32).collect();
         let mut o = out.lock();
-        writeln!(o, "{}", serde_json::to_string(&cps).unwrap()).unwrap();
+        if let Some(chunks) = v.get("chunks") {
+            // streaming API: one decoder over all chunks, no BOM handling, not `last`
+            let mut dec = encoding_rs::UTF_8.new_decoder_without_bom_handling();
+            let mut res: Vec<Vec<u32>> = Vec::new();
+            for ch in chunks.as_array().unwrap() {
+                let bytes: Vec<u8> = ch.as_array().unwrap().iter().map(|x| x.as_u64().unwrap() as u8).collect();
+                let mut s = String::with_capacity(dec.max_utf8_buffer_length(bytes.len()).unwrap());
+                let _ = dec.decode_to_string(&bytes, &mut s, false);
+                res.push(s.chars().map(|c| c as u32).collect());
+            }
+            writeln!(o, "{}", serde_json::to_string(&res).unwrap()).unwrap();
+        } else {
+            let bytes: Vec<u8> = v.as_array().unwrap().iter().map(|x| x.as_u64().unwrap() as u8).collect();
+            let (cow, _) = encoding_rs::UTF_8.decode_with_bom_removal(&bytes);
+            let cps: Vec<u32> = cow.chars().map(|c| c as u32).collect();
+            writeln!(o, "{}", serde_json::to_string(&cps).unwrap()).unwrap();
+        }
         o.flush().unwrap();
     }
 }
@@ -455,7 +468,7 @@ fn run_loop() {
             Ok(v) => v,
             Err(e) => {
                 let mut so = stdout.lock();
-                writeln!(so, "{}", json!({"error": format!("bad scenario: {}", e)})).unwrap();
+                writeln!(so, "\n@@RESULT {}", json!({"error": format!("bad scenario: {}", e)})).unwrap();
                 so.flush().unwrap();
                 continue;
             }
@@ -500,8 +513,9 @@ fn run_loop() {
                 json!({"ok": false, "panic": msg, "out": outs})
             }
         };
+        // memterm println!s diagnostics to stdout: results are tagged so the client can skip those
         let mut so = stdout.lock();
-        writeln!(so, "{}", result).unwrap();
+        writeln!(so, "\n@@RESULT {}", result).unwrap();
         so.flush().unwrap();
     }
 }
